@@ -28,13 +28,28 @@ CLIENTS = {'client:modern': lambda: P.Client(label='fi', banner=b'SSH-2.0-OpenSS
                                              enc=['chacha20-poly1305@openssh.com', 'aes256-gcm@openssh.com'], mac=['hmac-sha2-512-etm@openssh.com'])}
 
 
-def _run(name, kw, faults):
+def _server(name, kw):
+    """-> (server, keyword arguments for the World, the peer sends its KEXINIT early)"""
     kw = dict(kw)
     eager = bool(kw.pop('eager', False))
-    if name in CLIENTS:
-        return H.client_audit(CLIENTS[name](), opts=['-n', '-j'], world_kw=kw, faults=faults), eager
     srv = SERVERS[name]()
     srv.eager_kexinit = eager    # the peer sends its KEXINIT right behind its identification string, as OpenSSH does
+    # the same offer in a KEXINIT that differs where the report does not look: language lists, the reserved word, the line end of the identification string
+    if kw.pop('lang', False):
+        srv.lang = ['en-US', 'de']
+    if kw.pop('reserved', False):
+        srv.reserved = 0xfffffffe
+    if kw.pop('lf', False):
+        srv.line_end = b'\n'
+    return srv, kw, eager
+
+
+def _run(name, kw, faults):
+    if name in CLIENTS:
+        kw = dict(kw)
+        eager = bool(kw.pop('eager', False))
+        return H.client_audit(CLIENTS[name](), opts=['-n', '-j'], world_kw=kw, faults=faults), eager
+    srv, kw, eager = _server(name, kw)
     return H.audit(srv, opts=['-n', '--skip-rate-test', '-j'], world_kw=kw, faults=faults), eager
 
 
@@ -61,9 +76,12 @@ def tasks(tier='quick'):
         for kw in ({'segment': 1}, {'segment': 7}, {'segment': 13}, {'coalesce': True}, {'coalesce': True, 'eager': True}, {'eager': True}, {'eager': True, 'segment': 16},
                    {'eager': True, 'segment': 1},
                    # the same messages framed with more random padding than the minimum (RFC 4253: 4..255 bytes)
+                   {'lang': True}, {'reserved': True}, {'lf': True}, {'lf': True, 'eager': True, 'coalesce': True}, {'lang': True, 'reserved': True, 'pad_extra': 64},
                    {'pad_extra': 16}, {'pad_extra': 120}, {'pad_extra': 128}, {'pad_extra': 200}, {'pad_extra': 255}, {'pad_extra': 255, 'segment': 13}, {'pad_extra': 136, 'coalesce': True, 'eager': True}):
-            if name == 'ssh1' and kw.get('eager'):
-                continue        # an SSH-1 server has no KEXINIT to send early
+            if name == 'ssh1' and (kw.get('eager') or kw.get('lang') or kw.get('reserved')):
+                continue        # an SSH-1 server has no KEXINIT
+            if name in CLIENTS and (kw.get('lang') or kw.get('reserved') or kw.get('lf')):
+                continue
             out.append((name, None, None, tuple(sorted(kw.items()))))
         # the peer has sent identification string and KEXINIT and is gone (abortive close): the tool's own writes fail from the start,
         # what the peer sent is readable all the same - in one piece, in segments, glued
@@ -119,6 +137,9 @@ def judge(name, site, pattern, kw=()):
     res, eager = _run(name, kw, {('fi', site[0], site[1]): pattern} if site is not None else None)
     kw = dict(kw)
     kw.pop('eager', None)
+    for k in ('lang', 'reserved', 'lf'):
+        if kw.pop(k, None):
+            kw['same_offer_other_' + k] = True
     d = {'server': name, 'connection_and_message': list(site) if site else None, 'delivery_of_that_message': list(pattern) if pattern else None,
          'delivery_everywhere': dict(kw, kexinit_right_behind_the_banner=eager), 'status': res.status, 'fault_free_status': base.status}
     kind = '+'.join(([pattern[0]] if pattern else []) + sorted(k for k, v in list(kw.items()) + [('eager', eager)] if v))
@@ -219,9 +240,8 @@ def work_policy(chunk, st, clauses):
         tag = '%s:%s' % (kind, 'everywhere' if site is None else ('first-connection' if site[0] == 0 else 'probe-connection'))
 
         def run(opts):
-            srv = SERVERS[name]()
-            srv.eager_kexinit = eager
-            return H.audit(srv, opts=['-n', '--skip-rate-test'] + opts, world_kw=kwd, faults=faults)
+            srv, wkw, _e = _server(name, kw)
+            return H.audit(srv, opts=['-n', '--skip-rate-test'] + opts, world_kw=wkw, faults=faults)
         root = ('delivery-policy', name, site, pattern, kw)
         if 'policy-make' in clauses:
             pm = H.tmp_path('delivery-made-again.txt')
@@ -235,7 +255,7 @@ def work_policy(chunk, st, clauses):
             elif made is not None and _body(made) != _body(text):
                 diff = [(a, b) for a, b in zip(_body(text), _body(made)) if a != b][:3]
                 st.violation('delivery:policy-made-differs:%s' % tag, dict(d, customary_vs_this=diff))
-        if 'policy-verdict' in clauses:
+        if 'policy-verdict' in clauses and text:
             for which, path, want in (('same', p0, v0), ('raised-sizes', p1, v1)):
                 if which == 'raised-sizes' and not drifted:
                     continue
